@@ -1,24 +1,49 @@
 #!/venv/bin/python
-"""Copy sub-agent outputs /tmp/mut/<ID>-out/{patchN.diff,demoN.py,metaN.json} to /verif/seeded/<ID>-N/."""
+"""
+Copy sub-agent outputs /tmp/mut/<ID>-out[K]/{patchN.diff,demoN.py,metaN.json} to /verif/seeded/<ID>[-rK]-N/.
+
+    collect_seeded.py [--round K] [--dest DIR] <ID>...
+
+Round 1 has no suffix (C05-1); later rounds are C05-r2-1, C05-r3-1, ...
+"""
 import json, os, shutil, sys
-args = [a for a in sys.argv[1:] if not a.startswith("--")]
-ROUND2 = "--round2" in sys.argv
-for pid in args:
-    src = f"/tmp/mut/{pid}-out2" if ROUND2 else f"/tmp/mut/{pid}-out"
+
+ORIGIN = {
+    1: "fresh sub-agent given only the property text and a scratch worktree",
+    2: "second-round sub-agent (brief: seeded/BRIEF2.md: size thresholds, hidden state, rare dtypes, argument combinations, names)",
+    3: "third-round sub-agent (brief: seeded/BRIEF3.md)",
+    4: "fourth-round sub-agent (brief: seeded/BRIEF4.md: width, duplicates from outside, misbehaving callbacks, failure atomicity, keyword pass-through, text normalisation, dtype-edge arithmetic, re-entrancy)",
+}
+
+argv = sys.argv[1:]
+rnd, dest = 1, "/verif/seeded"
+if "--round2" in argv:
+    argv.remove("--round2")
+    rnd = 2
+if "--round" in argv:
+    i = argv.index("--round")
+    rnd = int(argv[i + 1])
+    del argv[i:i + 2]
+if "--dest" in argv:
+    i = argv.index("--dest")
+    dest = argv[i + 1]
+    del argv[i:i + 2]
+for pid in argv:
+    src = f"/tmp/mut/{pid}-out" + ("" if rnd == 1 else str(rnd))
     for n in (1, 2, 3, 4):
         p = os.path.join(src, f"patch{n}.diff")
         if not os.path.exists(p):
             continue
-        dst = f"/verif/seeded/{pid}-r2-{n}" if ROUND2 else f"/verif/seeded/{pid}-{n}"
+        dst = os.path.join(dest, f"{pid}-{n}" if rnd == 1 else f"{pid}-r{rnd}-{n}")
         os.makedirs(dst, exist_ok=True)
         shutil.copy(p, os.path.join(dst, "patch.diff"))
         shutil.copy(os.path.join(src, f"demo{n}.py"), os.path.join(dst, "demo.py"))
         for extra in ("oracle.py",):
             if os.path.exists(os.path.join(src, extra)):
                 shutil.copy(os.path.join(src, extra), os.path.join(dst, extra))
-        meta = json.load(open(os.path.join(src, f"meta{n}.json")))
+        mp = os.path.join(src, f"meta{n}.json")
+        meta = json.load(open(mp)) if os.path.exists(mp) else {}
         meta["property"] = pid
-        meta["origin"] = ("second-round sub-agent (brief: seeded/BRIEF2.md: size thresholds, hidden state, rare dtypes, argument combinations, names)" if ROUND2
-                          else "fresh sub-agent given only the property text and a scratch worktree")
+        meta["origin"] = ORIGIN.get(rnd, f"round-{rnd} sub-agent")
         json.dump(meta, open(os.path.join(dst, "meta.json"), "w"), indent=1)
         print("collected", dst)
